@@ -27,6 +27,10 @@ def nontrivial(f):
 def run(sh):
     n = 400 if sh.tier == 'quick' else 60000
     engine_line.run_profile(sh, 'C17', 'batching', n, MONITORS, nontrivial)
+    # hand-made (never initialised) parts added to finished batches by a callback; no value callbacks here, which
+    # would need an initialised part
+    engine_line.run_profile(sh, 'C17', 'batching', n // 4, MONITORS, nontrivial, prefix='inserts_',
+                            overrides={'p_insert': 0.6, 'p_value_cb': 0, 'p_batch_source': 0.9}, tag='inserts')
 
     # generators that re-use one scratch list for every Batch, in front of a PartBatcher that unpacks it
     from .. import core, modelgen
